@@ -4,6 +4,7 @@ import ast
 from .common import *
 from ..engine import is_identity, mat_subs
 from ..poly import Poly, Atom, deep_subs
+from .liecommon import decide_cell_by_cases
 
 UNDECIDABLE_ROT = ("mrp", "euler", "so2", "dcm")
 
@@ -32,11 +33,11 @@ def compare_blocks(w, rep, rule, inst, L, Rm, G, quats, where, what, dcm_inverse
     for i in range(L.r):
         for j in range(L.c):
             part = "rot" if (i, j) in rb else "rest"
-            v = decide(L.cells[i][j], Rm.cells[i][j], quats)
+            v, case = decide_cell_by_cases(L.cells[i][j], Rm.cells[i][j], quats)
             if v == EQUAL:
                 res[part][0] += 1
             elif v == DIFFERENT and res[part][1] is None:
-                res[part][1] = "cell (%d,%d): %s  vs  %s" % (i, j, short(L.cells[i][j], 120), short(Rm.cells[i][j], 120))
+                res[part][1] = "%scell (%d,%d): %s  vs  %s" % (case + ": " if case else "", i, j, short(L.cells[i][j], 120), short(Rm.cells[i][j], 120))
             elif v == UNKNOWN and res[part][2] is None:
                 res[part][2] = "cell (%d,%d): %s  vs  %s" % (i, j, short(L.cells[i][j], 120), short(Rm.cells[i][j], 120))
     for part in ("rest", "rot"):
@@ -322,13 +323,13 @@ def check_default_product(w, rep):
                     "matrix handed to from_Matrix is not to_Matrix(left) @ to_Matrix(right) (order, transpose or element-wise product)")
 
 
-def check_direct_product(w, rep, factors, label):
+def check_direct_product(w, rep, factors, label, prebuilt=None):
     """D4 (direct products): slices partition the parameter vector, every operation is applied factor-wise to its own
     slice, the matrix is block diagonal in factor order."""
     it = w.it
-    G = factors[0]
+    G = factors[0] if prebuilt is None else prebuilt
     ok = True
-    for F in factors[1:]:
+    for F in (factors[1:] if prebuilt is None else []):
         ok, G = guarded(w, rep, "C01.direct-product", "%s construction" % label, lambda G=G, F=F: it.binop(ast.Mult(), G, F, None))
         if not ok:
             return
@@ -434,6 +435,15 @@ def run(w, rep, tier):
         prods.append(("SE23Quat*SO3Mrp*R2", ["SE23Quat", "SO3Mrp", "R2"]))
     for label, fs in prods:
         check_direct_product(w, rep, [w.G(f) for f in fs], label)
+    # a product object that is kept and multiplied again: building G1 * C must leave G1 itself (and an earlier G1 * B) as
+    # they were (`*` returns a new group; seeded C01-11 extended the left operand's factor list in place)
+    mul = lambda a, b: w.it.binop(ast.Mult(), a, b, None)
+    okr, built = guarded(w, rep, "C01.direct-product", "reuse: G1 = SE2*R3; G2 = G1*R3; G3 = G1*SO3Quat", lambda: (lambda g1: (g1, mul(g1, w.G("R3")), mul(g1, w.G("SO3Quat"))))(mul(w.G("SE2"), w.G("R3"))))
+    if okr:
+        g1, g2, g3 = built
+        check_direct_product(w, rep, [w.G("SE2"), w.G("R3")], "G1 = SE2*R3 after G1*R3 and G1*SO3Quat were built", prebuilt=g1)
+        check_direct_product(w, rep, [w.G("SE2"), w.G("R3"), w.G("R3")], "G2 = G1*R3 after G1*SO3Quat was built", prebuilt=g2)
+        check_direct_product(w, rep, [w.G("SE2"), w.G("R3"), w.G("SO3Quat")], "G3 = G1*SO3Quat", prebuilt=g3)
     rep.floor("C01.API", 12 * 4)
     rep.floor("C01.identity", 12)
     rep.floor("C01.hom", 9)
